@@ -10,7 +10,8 @@
 // result R <ok|toolong|n=.. eof=.. data=..|raw=..> left=<n> index=<n> nbuf=<n> closed=<0|1> alloc=<m<id>:<n>:<cap>,f<id>,...>
 //
 // Direct oracles: c07-body-stream (bytes read = bytes appended, in order), c08-body-left (left accounting and the
-// MaxHTTPBodySize bound), c08-body-panic, c11-body-free-once (allocator: no double free, no foreign free).
+// MaxHTTPBodySize bound), c08-body-panic, c08-body-free-once (allocator: no double free, no foreign free,
+// every buffer released by the first Close).
 package main
 
 import (
@@ -87,10 +88,21 @@ func exec(e *lp.Exec) {
 		ev := strings.Join(al.events, ",")
 		al.events = nil
 		for _, b := range al.bad {
-			e.Oracle("c11-body-free-once", "%s", b)
+			e.Oracle("c08-body-free-once", "%s", b)
 		}
 		al.bad = nil
 		return fmt.Sprintf("left=%d index=%d nbuf=%d closed=%d alloc=%s", l, i, n, cl, ev)
+	}
+	// buffers allocated while the reader was open must all be back at the allocator after the first Close / release
+	// (an append to a closed reader does not happen through the processors and is not judged)
+	var live []int
+	leaks := func(what string) {
+		for _, id := range live {
+			if !al.freed[id] {
+				al.bad = append(al.bad, fmt.Sprintf("buffer %d not released by %s", id, what))
+			}
+		}
+		live = nil
 	}
 	guard := func(what string, f func()) {
 		defer func() {
@@ -123,7 +135,7 @@ func exec(e *lp.Exec) {
 			al = &trackAlloc{ids: map[*[]byte]int{}, freed: map[int]bool{}}
 			engine = nbhttp.NewEngine(nbhttp.Config{MaxHTTPBodySize: maxBody, BodyAllocator: al})
 			br = nbhttp.NewBodyReader(engine)
-			appended, readBack, closedOnce = nil, nil, false
+			appended, readBack, closedOnce, live = nil, nil, false, nil
 			key.Reset()
 			fmt.Fprintf(&key, "%v|", maxBody > 0)
 			nontrivial = false
@@ -134,7 +146,13 @@ func exec(e *lp.Exec) {
 				data := lp.Payload(f[1])
 				al.extra, _ = strconv.Atoi(f[2])
 				_, l0, n0, _ := br.VerifBodyState()
+				id0 := al.next
 				err := nbhttp.VerifBodyAppend(br, data)
+				if !closedOnce {
+					for id := id0; id < al.next; id++ {
+						live = append(live, id)
+					}
+				}
 				res := "ok"
 				if err != nil {
 					res = "toolong"
@@ -190,6 +208,7 @@ func exec(e *lp.Exec) {
 		case "X":
 			guard("Close", func() {
 				_ = br.Close()
+				leaks("Close")
 				closedOnce = true
 				key.WriteString("X,")
 				e.P("R closed %s", state())
@@ -213,6 +232,7 @@ func exec(e *lp.Exec) {
 		case "N":
 			guard("release", func() {
 				nbhttp.VerifBodyRelease(br)
+				leaks("release")
 				br = nbhttp.NewBodyReader(engine)
 				appended, readBack, closedOnce = nil, nil, false
 				i, l, n, c := br.VerifBodyState()
